@@ -1068,3 +1068,85 @@ func elseIf(ifs *ast.IfStmt) *ast.IfStmt {
 	}
 	return nil
 }
+
+// R01.41: string literals are joined only where the join does not extend an escape.
+func (c *Ctx) r0141(pk *packages.Package) {
+	const rule = "R01.41"
+	c.R.Rule(rule, "js.mergeBinaryExpr joins the contents of adjacent string literals byte by byte. An octal escape at the end of the left literal (`\\\\0`, `\\\\1`, `\\\\12`) takes a digit that starts the right one as part of itself: `\"a\\\\0\"+\"1\"` (a, NUL, 1) joined is `\"a\\\\01\"` (a, U+0001). Every extension of the list of literals to be joined inside the collecting loop (`strings = append(strings, lit)`) is dominated by the false outcome of a predicate of the module that is given the new literal's data and looks for a backslash and the octal digits ('\\\\\\\\', '7')")
+	info := pk.TypesInfo
+	fd := c.fn(rule, pk, "mergeBinaryExpr")
+	if fd == nil {
+		return
+	}
+	g := c.graph(pk, fd)
+	n := 0
+	for _, y := range g.Nodes {
+		as, ok := y.Stmt.(*ast.AssignStmt)
+		if !ok || y.Kind != flow.KStmt || len(as.Lhs) != 1 || len(as.Rhs) != 1 {
+			continue
+		}
+		ce, ok := ast.Unparen(as.Rhs[0]).(*ast.CallExpr)
+		if !ok || len(ce.Args) != 2 {
+			continue
+		}
+		if id, ok := ce.Fun.(*ast.Ident); !ok || info.Uses[id] != types.Universe.Lookup("append") {
+			continue
+		}
+		if nospace(str(ce.Args[0])) != nospace(str(as.Lhs[0])) || namedTypeName(derefType(info.TypeOf(ce.Args[1]))) != pjs+".LiteralExpr" {
+			continue
+		}
+		// only extensions inside a loop nested in the outer loop (the first literal starts the list)
+		depth := 0
+		for x := c.P.Parent(as); x != nil; x = c.P.Parent(x) {
+			if _, ok := x.(*ast.ForStmt); ok {
+				depth++
+			}
+			if _, ok := x.(*ast.FuncDecl); ok {
+				break
+			}
+		}
+		if depth < 2 {
+			continue
+		}
+		n++
+		lit := nospace(str(ce.Args[1]))
+		good := false
+		for _, f := range g.DomFacts(y) {
+			if f.Value || f.Test.Kind != flow.KCond {
+				continue
+			}
+			ast.Inspect(f.Test.Expr, func(z ast.Node) bool {
+				pc, ok := z.(*ast.CallExpr)
+				if !ok {
+					return true
+				}
+				onLit := false
+				for _, a := range pc.Args {
+					if strings.HasPrefix(nospace(str(a)), lit+".") {
+						onLit = true
+					}
+				}
+				if !onLit {
+					return true
+				}
+				if p, d := c.calleeDecl(info, pc); d != nil && d.Body != nil {
+					chars, _, _ := c.constsIn(p, d.Body)
+					if chars['\\'] && chars['7'] {
+						good = true
+					}
+				}
+				return true
+			})
+		}
+		c.R.Check(good, rule, fmt.Sprintf("js.mergeBinaryExpr/literal#%d joins the list only if it does not end in an open octal escape", n), c.pos(as), "behind a boundary predicate on "+lit+".Data",
+			"a string literal is added to the literals that are joined without a test of the boundary: an octal escape at its end absorbs a digit that starts the next literal (`\"a\\0\"+\"1\"` → `\"a\\01\"`)")
+	}
+	c.R.Floor(rule, "extensions of the list of literals to join", n, 2)
+}
+
+func derefType(t types.Type) types.Type {
+	if p, ok := t.(*types.Pointer); ok {
+		return p.Elem()
+	}
+	return t
+}
